@@ -305,8 +305,11 @@ func (w *slWorker) build() {
 			c := x.clone()
 			c.touchC("0")
 			s := c.C["0"]
-			w.w.CA.K.AppendPendingPacket(s.Ctx, ccv.VscMaturedPacket, &ccv.ConsumerPacketData_VscMaturedPacketData{
-				VscMaturedPacketData: &ccv.VSCMaturedPacketData{ValsetUpdateId: 1}})
+			_, _ = s.Raw("legacy-vscmatured", func(app env.ABCIApp, ctx sdk.Context) error {
+				env.CK(app).AppendPendingPacket(ctx, ccv.VscMaturedPacket, &ccv.ConsumerPacketData_VscMaturedPacketData{
+					VscMaturedPacketData: &ccv.VSCMaturedPacketData{ValsetUpdateId: 1}})
+				return nil
+			})
 			c.C["0"] = s
 			return c, nil
 		})
@@ -319,8 +322,11 @@ func (w *slWorker) build() {
 				c := n.(*slNode).clone()
 				c.touchC("0")
 				s := c.C["0"]
-				w.w.CA.K.AppendPendingPacket(s.Ctx, ccv.SlashPacket, &ccv.ConsumerPacketData_SlashPacketData{
-					SlashPacketData: ccv.NewSlashPacketData(abciVal(p.Vals[2], 1), 9999, inf)})
+				_, _ = s.Raw("forged-report", func(app env.ABCIApp, ctx sdk.Context) error {
+					env.CK(app).AppendPendingPacket(ctx, ccv.SlashPacket, &ccv.ConsumerPacketData_SlashPacketData{
+						SlashPacketData: ccv.NewSlashPacketData(abciVal(p.Vals[2], 1), 9999, inf)})
+					return nil
+				})
 				c.C["0"] = s
 				return c, nil
 			})
@@ -413,9 +419,9 @@ func (w *slWorker) report(x *slNode, cid string, addr sdk.ConsAddress, inf staki
 			power = v.Power
 		}
 	}
-	_, pan := s.RunTx(func(ctx sdk.Context) bool {
-		_, err := k.SlashWithInfractionReason(ctx, addr, h, power, math.LegacyNewDecWithPrec(1, 2), inf)
-		return err == nil
+	_, pan := s.Raw("slashing-module-report", func(app env.ABCIApp, ctx sdk.Context) error {
+		_, err := env.CK(app).SlashWithInfractionReason(ctx, addr, h, power, math.LegacyNewDecWithPrec(1, 2), inf)
+		return err
 	})
 	c.C[cid] = s
 	if pan != "" {
@@ -1068,3 +1074,5 @@ func (w *slWorker) wait(x *slNode, dt time.Duration) (engine.Node, []V) {
 	}
 	return c, vs
 }
+
+func (w *slWorker) XWorldForTier2() *XWorld { return w.w }
